@@ -122,11 +122,13 @@ CLAIMED = {
         "min_by return an input element with the extreme key (first on ties for *_by), merge is right-biased, length/reverse count code points, "
         "keys/values zip to the members, to_number yields a number or null only, avg [] = null and avg = sum/len, map preserves length and "
         "evaluates the reference once per element in order, not_null returns the first non-null, contains/starts_with/ends_with are "
-        "infix/prefix/suffix, join is intercalate. Tied to the code by the `eval` stream on generated well-typed calls (arrays to 64 "
+        "infix/prefix/suffix, join is intercalate; abs / floor / ceil return exactly |x|, the floor and the ceiling of every finite number, and "
+        "the arithmetic behind sum and avg is IEEE-754 round-to-nearest-even of the exact result (the model's rounding is proved nearest, "
+        "ties-to-even, with overflow exactly from 2^1024-2^970, and exact on representable values: Lemmas/F64Spec, 1500 lines). Tied to the code by the `eval` stream on generated well-typed calls (arrays to 64 "
         "elements with duplicate keys, all Unicode planes, calls inside projections and other calls), each result compared with the model "
         "and with an independent Python reference semantics of the function specification (tools/fnspec.py).",
-   note="Trusted: Lean kernel; slice::sort modelled as a stable merge sort (List.mergeSort); abs/ceil/floor/sum/avg arithmetic is the soft-float "
-        "model validated by the stream (their numeric contracts are checked against Python floats, not proved); tools/fnspec.py as the reading of the function specification.",
+   note="Trusted: Lean kernel; slice::sort modelled as a stable merge sort (List.mergeSort); that the hardware's doubles behave as "
+        "IEEE-754 binary64 (what the soft-float model is proved to be) is validated by the stream against Python floats; tools/fnspec.py as the reading of the function specification.",
    design="DESIGN.md §7 C02",
    technique="Lean 4 contract theorems per builtin + correspondence + independent reference-semantics oracle"),
  "C11": dict(
